@@ -777,7 +777,7 @@ Proof.
       specialize (Hdep c i Hc Hi (H2 i c Hi Hr Hne Hc E) E'). lia.
 Qed.
 
-(* 8f. the level loop with the anti-dependency push (gauss_seidel after f214b60) *)
+(* 8f. the level loop with the anti-dependency push (gauss_seidel after dff00c6) *)
 Lemma push_levels_length l cs : forall level, length (push_levels level l cs) = length level.
 Proof.
   unfold push_levels. induction cs as [|c cs IH]; intro level; simpl; [reflexivity|].
@@ -1155,7 +1155,7 @@ Qed.
 Lemma qvals_neq (u v : vec QcS) : qvals u <> qvals v -> u <> v.
 Proof. intros H E. apply H. rewrite E. reflexivity. Qed.
 
-(* HISTORICAL (old level rule, before /repo f214b60): rows 0 and 1 get the same level
+(* HISTORICAL (old level rule, before /repo dff00c6): rows 0 and 1 get the same level
    although row 0 reads x[1], which row 1 writes: thread 0 first gives the serial result
    (5,1), thread 1 first gives (9,1).  With the fixed rule the same input is fine. *)
 Theorem gs_schedule_old_race_refuted :
